@@ -210,9 +210,8 @@ def branch_model(g: dict, provided: dict) -> dict | None:
             t = max(t_data, min(act))
         run_at[name] = t
         ran[name] = a
-        basis = [(k, canon(v)) for k, v in sorted(a.items())]
         for j, o in enumerate(nd.get("outs", [])):
-            vals[o] = mix(nd.get("fid", name), j, basis)
+            vals[o] = gen.node_out_value(nd, j, a)
             avail_at[o] = t
     return {"values": vals, "ran": ran}
 
